@@ -244,6 +244,7 @@ pub fn affine(t: Tid) -> Option<(std::collections::BTreeMap<u32, U256>, U256)> {
     fn go(t: Tid) -> Option<(BTreeMap<u32, U256>, U256)> {
         match sx::node_of(t) {
             Node::Const(c) => Some((BTreeMap::new(), c)),
+            Node::Limb(_, _) => None,
             Node::Var(v) => {
                 let mut m = BTreeMap::new();
                 m.insert(v, fq::ONE);
@@ -341,3 +342,29 @@ pub fn same<A: serde::Serialize, B: serde::Serialize>(name: &str, key: &str, a: 
     ok
 }
 
+
+/// "Do equal challenge digests force two 32-byte public values (blobs) to be equal?"  Both values are taken to be
+/// canonical (< q): the library turns them into scalars, so two byte strings congruent mod q are the same public value.
+/// Candidates: the second blob equal to the first with one 64-bit word changed (what a slip in the word-wise conversion
+/// to a scalar would let through); then the general query, which must be unsat.
+pub fn blob_binding(name: &str, hyps: &[F], same: &F, a: u32, b: u32) -> Option<std::collections::HashMap<String, String>> {
+    let q = F::and(vec![same.clone(), F::BlobEq(a, b).not(), F::BlobLtQ(a), F::BlobLtQ(b)]);
+    let sha = sx::with(|ar| ar.vars[a as usize].shadow);
+    // make the first value canonical for the candidates: clear its top word's high bits
+    let mut base = sha;
+    base[3] &= 0x0FFF_FFFF_FFFF_FFFF;
+    for k in 0..4 {
+        let mut other = base;
+        other[k] ^= 0x0000_0000_0001_0000;
+        let mut ov = std::collections::HashMap::new();
+        ov.insert(a, base);
+        ov.insert(b, other);
+        if let Some(m) = eng::candidate_model_with(&format!("{} [candidate: word {} differs]", name, k), "REFUTE", hyps, &q, ov) {
+            return Some(m);
+        }
+    }
+    match eng::satisfiable(name, "REFUTE", hyps, &q) {
+        (Tri::Yes, m) => m,
+        _ => None,
+    }
+}
